@@ -171,7 +171,7 @@ pub fn load_known() -> Known {
     if let Ok(s) = std::fs::read_to_string(&path) {
         for line in s.lines() {
             let line = line.trim();
-            if line.is_empty() || line.starts_with('#') {
+            if line.is_empty() || line.starts_with('#') || line.starts_with("fixed:") {
                 continue;
             }
             let v: Value = match serde_json::from_str(line) {
@@ -231,16 +231,16 @@ pub fn finish(st: &Stats, rule: &str, assumptions: &[&str], exhaustive: bool, re
     // candidate lines for known_findings.jsonl (never written by a check; only on explicit request)
     if let Ok(path) = std::env::var("VERIF_EMIT_CANDIDATES") {
         use std::io::Write;
-        let mut seen: std::collections::BTreeMap<String, Vec<String>> = Default::default();
+        let mut seen: std::collections::BTreeMap<String, (Vec<String>, Value)> = Default::default();
         for v in &unlisted {
-            seen.entry(v.key.clone()).or_default().push(v.clause.clone());
+            seen.entry(v.key.clone()).or_insert((vec![], v.case.clone())).0.push(v.clause.clone());
         }
         let mut f = std::fs::OpenOptions::new().create(true).append(true).open(&path).expect("candidates file");
-        for (k, cls) in seen {
+        for (k, (cls, case)) in seen {
             let mut cls = cls;
             cls.sort();
             cls.dedup();
-            writeln!(f, "{}", json!({"status": "known", "property": st.prop, "key": k, "what": cls.join("; ")})).unwrap();
+            writeln!(f, "{}", json!({"status": "known", "property": st.prop, "key": k, "clauses": cls, "case": case})).unwrap();
         }
     }
     let mut code = 0;
